@@ -108,6 +108,9 @@ type frame struct {
 	// a CHECKPREDICATE of this frame waiting for its child
 	pendDeferred int64
 	pendNext     uint32
+	// given: what a child frame received from its parent (run limit plus the
+	// deposits of the items handed over); it never gives back more than that
+	given int64
 }
 
 // Machine executes one program; Next delivers the event stream step by step.
@@ -295,7 +298,13 @@ func (m *Machine) leave(f *frame, ok bool) {
 	parent := m.frames[len(m.frames)-1]
 	res := ok && len(f.data) > 0 && truthy(f.data[len(f.data)-1])
 	// the child's unused gas and the deposits of what it leaves behind go back
-	d := parent.pendDeferred - f.runLimit - stackDeposit(f.data) - stackDeposit(f.alt)
+	// (calibrated: a child that failed on an end-of-instruction deposit still holds the unpaid item;
+	// the refund is capped by what the child was given, so that no gas is created)
+	refund := f.runLimit + stackDeposit(f.data) + stackDeposit(f.alt)
+	if refund > f.given {
+		refund = f.given
+	}
+	d := parent.pendDeferred - refund
 	v := boolBytes(res)
 	d += 8 + int64(len(v))
 	parent.data = append(parent.data, v)
@@ -335,10 +344,18 @@ type Result struct {
 	Steps     int
 	Peak      int64
 	Executed  []ExecRecord
+	// Cut: the run was abandoned after MaxSteps instructions.  The gas rules as
+	// implemented (and mirrored here) let a CHECKPREDICATE child that fails on an
+	// unpaid end-of-instruction deposit hand gas back to its parent, so a run is
+	// not bounded by its gas limit.
+	Cut bool
 }
 
+// MaxSteps bounds the instructions Run executes.
+var MaxSteps = 50000
+
 // Run executes the program to its end.  maxEvents bounds the recorded events
-// (0: record none); execution itself is bounded by the gas limit.
+// (0: record none); execution is bounded by MaxSteps.
 func Run(ctx *Context, gasLimit int64, maxEvents int) *Result {
 	m := New(ctx, gasLimit)
 	r := &Result{}
@@ -349,6 +366,10 @@ func Run(ctx *Context, gasLimit int64, maxEvents int) *Result {
 		}
 		if len(r.Events) < maxEvents {
 			r.Events = append(r.Events, e)
+		}
+		if m.Steps > MaxSteps {
+			r.Cut = true
+			break
 		}
 	}
 	r.Class, r.GasLeft = m.Class(), m.GasLeft()
